@@ -35,7 +35,14 @@
 (*      mustuse   `_` of  `_ = f(..);` with f @must_use; a = tokens of     *)
 (*            `_ =`                                                         *)
 (*      cassert   `const_assert`; a..b = the condition (true in p);        *)
-(*            s = int | float | bool (operand class of the condition)       *)
+(*            s = int | float | bool | mixed (operand class; mixed = integer *)
+(*            comparisons between operands of different kinds: u32 -        *)
+(*            u-suffixed literal, `const WG = 8u`, `: u32` constant,        *)
+(*            u32(..), arithmetic on those - against AbstractInt -          *)
+(*            unsuffixed literal, untyped constant - or i32, possibly under *)
+(*            ! && ||); l = <<>> or <<first, last, lexeme>>: a literal      *)
+(*            operand and a literal that makes the condition false in its   *)
+(*            place (`WG == 8` -> `WG == 9`)                                 *)
 (*      attr_group / attr_binding / attr_wgsize   `@` of the attribute of  *)
 (*            one global / compute entry point; a = its last token          *)
 (*      arrsize   first token of an array element count; a = last token;   *)
@@ -59,7 +66,9 @@
 (*        to an integer type)                                               *)
 (*   must_use  (WGSL 12.3: a call to a @must_use function is not a         *)
 (*        statement)                                                        *)
-(*   const_assert  (WGSL 9.5: shader-creation error if false)               *)
+(*   const_assert  (WGSL 9.5: shader-creation error if false): the          *)
+(*        condition is negated, replaced by `false`, or one literal        *)
+(*        operand is replaced by a falsifying literal of the same kind     *)
 (*   group_only binding_only  (WGSL 12: @group and @binding come together) *)
 (*   array_size  (WGSL 6.2.9: the element count must be > 0)                *)
 (*   swizzle_mix swizzle_width  (WGSL 8.5.1: one of the two letter sets,   *)
@@ -260,7 +269,7 @@ WrongArgs(pt, d) ==
 Variants(p, rule, ri) ==
   LET r == p.roles[ri] IN
   CASE rule = "args_type"     -> UNION {{<<j, w[1]>> : w \in WrongArgs(r.l[j][3], 0)} : j \in 1 .. Len(r.l)}
-    [] rule = "const_assert"  -> {"negate", "false"}
+    [] rule = "const_assert"  -> {"negate", "false"} \cup (IF Len(r.l) >= 1 THEN {"operand"} ELSE {})
     [] rule = "array_size"    -> {"zero", "negative"}
     [] rule = "swizzle_mix"   -> {"xg", "rx"}
     [] rule = "swizzle_width" -> IF r.a = 2 THEN {"z", "xz", "b"} ELSE {"w", "xw", "a"}
@@ -292,6 +301,7 @@ EditOf(p, rule, ri, v) ==
                                  IN  [a |-> r.l[v[1]][1], b |-> r.l[v[1]][2], new |-> w[2]]
     [] rule = "must_use"      -> Del(r.i, r.i + r.a - 1)
     [] rule = "const_assert"  -> IF v = "false" THEN [a |-> r.a, b |-> r.b, new |-> <<NewTok("kw", "false", 0, d)>>]
+                                 ELSE IF v = "operand" THEN [a |-> r.l[1][1], b |-> r.l[1][2], new |-> <<NewTok("int", r.l[1][3], 0, d)>>]
                                  ELSE [a |-> r.a, b |-> r.b,
                                        new |-> <<NewTok("p", "!", 0, d), NewTok("p", "(", 0, d), [toks[r.a] EXCEPT !.nl = 0, !.sp = 0]>>
                                                \o SubSeq(toks, r.a + 1, r.b) \o <<NewTok("p", ")", 0, d)>>]
